@@ -2245,6 +2245,9 @@ func fixedMemberGrammar(c *Ctx, p *Prog, m *Model, mode Mode, rule string) {
 					}
 				case cal.Pkg == p.Slog && cal.Signature.Recv() != nil && typeName(cal.Signature.Recv().Type()) == "Entry" && !m.SinkFns[cal]:
 					sub = effOf(cal, depth+1)
+				case cal.Pkg == p.Slog && cal.Signature.Recv() == nil && cal.Object() != nil && !cal.Object().Exported() && takesPrintCtx(cal):
+					// a private helper of the member printers (e.g. "end this leading field")
+					sub = effOf(cal, depth+1)
 				default:
 					continue
 				}
@@ -3589,4 +3592,102 @@ func pathComparedAsGiven(c *Ctx, p *Prog, rule string) {
 	sort.Strings(bad)
 	r.Check(len(bad) == 0 && n > 0, rule, "as-given:checkpath", p.FuncPos(cp), fmt.Sprintf("the %d prefix tests / rewrites work on the path as given", n),
 		"the path is normalised before it is compared with the registered prefixes ("+strings.Join(bad, "; ")+"): a mapping registered in another spelling of the directory no longer matches, and the directory is reported")
+}
+
+// countersBalanced: a depth / nesting counter kept in the pooled encoder is balanced within the function that
+// counts: where a function of the print tree increments a PrintCtx field and also decrements it, every path from an
+// increment to a return passes a decrement (an early return between the two leaks one level per call, so a guard on
+// the counter fires for records that never were that deep).
+func countersBalanced(c *Ctx, p *Prog, m *Model, rule string) {
+	r := c.R
+	n := 0
+	for _, fn := range sortedTree(p, m) {
+		type site struct {
+			in    ssa.Instruction
+			field string
+		}
+		var incs, decs []site
+		for _, fs := range fieldStores(fn) {
+			if fs.Struct != "PrintCtx" {
+				continue
+			}
+			bo, ok := strip(fs.Val).(*ssa.BinOp)
+			if !ok || (bo.Op != token.ADD && bo.Op != token.SUB) {
+				continue
+			}
+			if k, isC := constInt(bo.Y); !isC || k != 1 {
+				continue
+			}
+			if _, isF := isFieldLoadOf(strip(bo.X), "PrintCtx", fs.Field); !isF {
+				continue
+			}
+			if bo.Op == token.ADD {
+				incs = append(incs, site{fs.Instr, fs.Field})
+			} else {
+				decs = append(decs, site{fs.Instr, fs.Field})
+			}
+		}
+		for _, inc := range incs {
+			var mine []ssa.Instruction
+			for _, d := range decs {
+				if d.field == inc.field {
+					mine = append(mine, d.in)
+				}
+			}
+			if len(mine) == 0 {
+				continue // counted here, uncounted elsewhere (Begin/End pairs): not this rule
+			}
+			n++
+			isDec := func(in ssa.Instruction) bool {
+				for _, d := range mine {
+					if d == in {
+						return true
+					}
+				}
+				return false
+			}
+			leak := ""
+			seen := map[*ssa.BasicBlock]bool{}
+			var walk func(b *ssa.BasicBlock, from int)
+			walk = func(b *ssa.BasicBlock, from int) {
+				for j := from; j < len(b.Instrs); j++ {
+					if isDec(b.Instrs[j]) {
+						return
+					}
+					if _, ok := b.Instrs[j].(*ssa.Return); ok && leak == "" {
+						leak = p.Pos(instrPos(b.Instrs[j]))
+					}
+				}
+				for _, nx := range b.Succs {
+					if !seen[nx] {
+						seen[nx] = true
+						walk(nx, 0)
+					}
+				}
+			}
+			start := 0
+			for j, in := range inc.in.Block().Instrs {
+				if in == inc.in {
+					start = j + 1
+				}
+			}
+			walk(inc.in.Block(), start)
+			key := fmt.Sprintf("balanced:%s:%s", shortName(fn), inc.field)
+			r.Check(leak == "", rule, key, p.Pos(instrPos(inc.in)), "every path from the increment to a return passes the decrement",
+				fmt.Sprintf("%s increments the encoder's %s and can return (at %s) without decrementing it: each such call leaks one level, so later values of the same record are treated as nested deeper than they are", shortName(fn), inc.field, leak))
+		}
+	}
+	if n == 0 {
+		r.Ok(rule, "balanced:none", "-", "no function of the print tree both increments and decrements a counter of the pooled encoder")
+	}
+}
+
+// takesPrintCtx: some parameter of fn is the formatting context.
+func takesPrintCtx(fn *ssa.Function) bool {
+	for _, q := range fn.Params {
+		if typeName(q.Type()) == "PrintCtx" {
+			return true
+		}
+	}
+	return false
 }
